@@ -142,6 +142,7 @@ pub fn run_trie_batches(ctx: &mut Ctx, prop: &str) -> EngineInfo {
             "new_generation",
             "rollback",
             "rollback_unobserved",
+            "get_mut_refused_generation_kept",
             "refused_by_lock",
             "concurrent_iterators",
             "stale_handle_used",
